@@ -68,6 +68,7 @@ def apply(op, args, p, np=numpy):
     if op == 'stack': return numpy.stack([a, b], axis=p['axis'])
     if op == 'broadcast_to': return numpy.broadcast_to(a, p['shape'])
     if op == 'choose': return numpy.choose(numpy.mod(a, 2), [b, args[2]])
+    if op == 'choose_b': return numpy.choose(a, [b, args[2]])      # boolean index array
     if op == 'einsum': return numpy.einsum(p['fmt'], *args)
     if op == 'searchsorted': return numpy.searchsorted(numpy.array(p['table'], dtype=int), a)
     if op == 'minimum_c': return numpy.minimum(a, p['c'])
@@ -92,7 +93,7 @@ def decode_index(ix):
 UNARY_F = ['negative', 'positive', 'absolute', 'square', 'sin', 'cos', 'arctan', 'exp', 'sinh', 'tanh', 'sqrtabs', 'log1pabs', 'reciprocal_s', 'arcsin_s', 'sinc', 'real', 'imag', 'conjugate']
 BINARY = ['add', 'subtract', 'multiply', 'divide_s', 'hypot', 'arctan2', 'minimum', 'maximum', 'op_add', 'op_mul', 'op_sub', 'add', 'multiply']
 EXACT_PRESERVING = {'negative', 'positive', 'absolute', 'square', 'add', 'subtract', 'multiply', 'op_add', 'op_mul', 'op_sub', 'op_rsub', 'minimum', 'maximum', 'sum', 'prod', 'max', 'min', 'transpose', 'T', 'swapaxes', 'reshape',
-                    'ravel', 'trace', 'diagonal', 'repeat', 'take', 'getitem', 'concatenate', 'stack', 'broadcast_to', 'choose', 'real', 'imag', 'conjugate', 'matmul', 'dot', 'op_matmul', 'einsum', 'power_i', 'op_pow', 'cross',
+                    'ravel', 'trace', 'diagonal', 'repeat', 'take', 'getitem', 'concatenate', 'stack', 'broadcast_to', 'choose', 'choose_b', 'real', 'imag', 'conjugate', 'matmul', 'dot', 'op_matmul', 'einsum', 'power_i', 'op_pow', 'cross',
                     'floor_divide_s', 'mod_s', 'sign', 'greater', 'less', 'equal', 'logical_and', 'logical_or', 'logical_not', 'any', 'all', 'searchsorted', 'compress', 'vdot', 'minimum_c', 'mod_c'}
 
 
@@ -282,6 +283,8 @@ class Gen:
             elif op == 'choose':
                 x, y = self.pick(lambda v, e: v.dtype.kind in 'ifc'), self.pick(lambda v, e: v.dtype.kind in 'ifc')
                 if x is not None and y is not None: self.try_add('choose', [a, x, y], {})
+                m = self.pick(lambda v, e: v.dtype.kind == 'b')
+                if m is not None and x is not None and y is not None and self.integer(0, 1): self.try_add('choose_b', [m, x, y], {})
             else:
                 self.try_add('astype_f', [a], {})
         elif fam == 'join':
